@@ -143,6 +143,11 @@ pub fn node_eval(
             }
         }
     }
+    // keep the request that killed the evaluator twice (diagnosis only; git-ignored directory)
+    let dir = crate::runner::verif_root().join("replays").join("found");
+    let _ = std::fs::create_dir_all(&dir);
+    let h = crate::choices::hash64(&req.to_string());
+    let _ = std::fs::write(dir.join(format!("infra-request-{h:016x}.json")), req.to_string());
     Err(Verdict::Infra(last_err))
 }
 
